@@ -91,6 +91,7 @@ typedef struct {
     int created, joined, freed;
     int late; /* created by an explicit op, not at start-up */
     int rank, sched_changed;
+    int nalt, alt[MAXP]; /* pool list for a later main-scheduler replacement */
 } vxs;
 
 struct globals {
